@@ -8,6 +8,7 @@ import Stevia.Proofs.ExecInv
 import Stevia.Proofs.HashSetImpEq
 import Stevia.Proofs.GenHSet
 import Stevia.Proofs.GenHSetIter
+import Stevia.Proofs.HashSetImpTerm
 
 namespace Stevia.C02
 open Stevia
@@ -88,27 +89,47 @@ theorem literal_model_is_the_model (hash : γ → Nat) (vd : γ) (s : HSet γ) (
     · exact ⟨s', true, h2, HImp.remove_eq hash vd s s' h v true h2⟩
 
 /-- Tie through the translator. `Stevia.GenH.*` is regenerated from `hash_set.rs` on every run
-    (tools/rust2lean.py); run on the layout of any well-formed state, the *translated Rust functions* `insert`,
-    `remove` and `contains` yield the layout of the functional model's next state and the model's answer
-    (for every hash function; `insert` cannot hit the "set is full" panic). -/
+    (tools/rust2lean.py); a translated function answers `none` where the Rust panics (`add_node`'s "set is full")
+    or where its chain scan does not leave by its own condition within `records + 1` iterations. Run on the layout of
+    any well-formed set, the *translated Rust functions* `insert`, `remove` and `contains` answer `some …` — no
+    panic, no endless loop — with the layout of the functional model's next state and the model's answer, for every
+    hash function. -/
 theorem translated_source_is_the_model (hash : γ → Nat) (vd : γ) (s : HSet γ) (h : s.Inv hash) (v : γ) :
     (∃ s' r, s.insert hash v = .ok (s', r) ∧
-      (GenH.insert hash (HImp.dflt vd) (s.image vd) v).getD (s.image vd, false) = (s'.image vd, r)) ∧
-    (∃ s' r, s.remove hash v = .ok (s', r) ∧ GenH.remove hash (HImp.dflt vd) (s.image vd) v = (s'.image vd, r)) ∧
-    s.contains hash v = .ok (GenH.contains hash (HImp.dflt vd) (s.image vd) v) ∧
+      GenH.insert hash (HImp.dflt vd) (s.image vd) v = some (s'.image vd, r)) ∧
+    (∃ s' r, s.remove hash v = .ok (s', r) ∧
+      GenH.remove hash (HImp.dflt vd) (s.image vd) v = some (s'.image vd, r)) ∧
+    (∃ b, s.contains hash v = .ok b ∧ GenH.contains hash (HImp.dflt vd) (s.image vd) v = some b) ∧
     GenH.size hash (HImp.dflt vd) (s.image vd) = s.size ∧ GenH.capacity hash (HImp.dflt vd) (s.image vd) = s.cap := by
   obtain ⟨⟨s1, r1, h1, e1⟩, ⟨s2, r2, h2, e2⟩, hc, _⟩ := literal_model_is_the_model hash vd s h v
-  refine ⟨⟨s1, r1, h1, ?_⟩, ⟨s2, r2, h2, ?_⟩, ?_, rfl, rfl⟩
-  · rw [GenH.insert_eq]; exact e1
-  · rw [GenH.remove_eq]; exact e2
-  · rw [GenH.contains_eq]; exact hc
+  have hT := HImp.scanT_image hash vd s h v
+  have hsize : (s.image vd).hdr.size = s.size := rfl
+  have hlen : (s.image vd).recs.length = s.slots := HSet.image_recs_length vd s
+  refine ⟨⟨s1, r1, h1, ?_⟩, ⟨s2, r2, h2, ?_⟩, ⟨_, hc, ?_⟩, rfl, rfl⟩
+  · rw [GenH.insert_eq, HImp.insertO_image hash vd s h v, e1, hlen]
+    by_cases hfull : (s.image vd).hdr.size = (s.image vd).hdr.cap
+    · simp only [hfull, true_or, if_true]
+    · have hc : s.cap ≠ 0 := by
+        intro hc0
+        have hle := h.size_le_cap
+        have : s.size = s.cap := by omega
+        exact hfull this
+      simp only [HImp.scanT_image_cap hash vd s h v hc, or_true, if_true]
+  · rw [GenH.remove_eq, e2, hlen, hsize]
+    rcases hT with h0 | hT
+    · simp only [h0, true_or, if_true]
+    · simp only [hT, or_true, if_true]
+  · rw [GenH.contains_eq, hlen, hsize]
+    rcases hT with h0 | hT
+    · simp only [h0, true_or, if_true]
+    · simp only [hT, or_true, if_true]
 
 /-- Tie through the translator, iteration: calling the *translated* `HashSetIterator::next` (regenerated from
     `hash_set.rs` on every run) from the initial iterator state until it answers `None` — one more call than there are
-    members — yields exactly the model's iteration order, i.e. (by `iter_members`) every member exactly once and
-    nothing else, on the layout of every well-formed set and for every hash function. -/
+    members — never fails and yields exactly the model's iteration order, i.e. (by `iter_members`) every member
+    exactly once and nothing else, on the layout of every well-formed set and for every hash function. -/
 theorem translated_iterator_yields_members (hash : γ → Nat) (vd : γ) (s : HSet γ) (h : s.Inv hash) :
-    GenH.collect hash (HImp.dflt vd) (s.image vd) (s.size + 1) 0 0 = s.iter :=
+    GenH.collect hash (HImp.dflt vd) (s.image vd) (s.size + 1) 0 0 = some s.iter :=
   GenH.collect_eq hash vd s h
 
 end Stevia.C02
